@@ -18,6 +18,7 @@ import (
 	"math/rand"
 	"net/http"
 	"net/http/httptest"
+	"runtime"
 	"sort"
 	"strconv"
 	"strings"
@@ -39,7 +40,10 @@ type c21Turn struct {
 // c21Fault: Net 0 ok, 1 fail before forwarding, 2 fail after the server answered.
 // Status 0 = keep. Enc 0 keep, 1 unknown coding, 2 declared gzip but not gzip.
 // Body 0 keep, 1 garbage, 2 empty, 3 cut inside the last message, 4 trailing
-// bytes, 5 frames carrying a cursor removed, 6 token keys stripped, 7 schema drift.
+// bytes that the IPC framing guard lets through (shorter than a length word, or a
+// further end-of-stream marker), 5 frames carrying a cursor removed, 6 token keys
+// stripped, 7 schema drift, 8 cut leaving only 1..3 bytes of the last message,
+// 9 trailing bytes whose first word declares more than remains.
 // Var picks a sub-variant that the model does not distinguish.
 type c21Fault struct {
 	Net    int  `json:"net,omitempty"`
@@ -351,8 +355,11 @@ func (p *c21Proxy) RoundTrip(req *http.Request) (*http.Response, error) {
 				// arrow-go, which allocates that much before reading; a text body such
 				// as "<html>.." costs a 1.8 GB allocation (~20 s). Keep declared sizes small.
 				body = []byte{0xff, 0x00, 0x01}
-				if f.Var%2 == 1 {
+				switch f.Var % 3 {
+				case 1:
 					body = append([]byte{0xff, 0xff, 0xff, 0xff, 0x10, 0, 0, 0}, []byte("not a flatbuffer")...)
+				case 2: // declares a 1.8 GB message; must be refused without allocating it
+					body = []byte("<html><body>502 Bad Gateway</body></html>")
 				}
 			case 2:
 				body = nil
@@ -364,10 +371,8 @@ func (p *c21Proxy) RoundTrip(req *http.Request) (*http.Response, error) {
 				}
 				body = b[:len(b)-cut]
 			case 4:
-				body = append(append([]byte(nil), decoded...), []byte("trailing")...)
-				if f.Var%2 == 1 {
-					body = append(append([]byte(nil), decoded...), 0)
-				}
+				tail := [][]byte{{0}, {0, 0, 0, 0}, {0xff, 0xff, 0xff, 0xff, 0, 0, 0, 0}}[f.Var%3]
+				body = append(append([]byte(nil), decoded...), tail...)
 			case 5:
 				if f.Var%2 == 1 {
 					// the body is cut exactly at the Arrow message boundary in front of the
@@ -405,6 +410,23 @@ func (p *c21Proxy) RoundTrip(req *http.Request) (*http.Response, error) {
 				})
 			case 7:
 				body = c21Reencode(c21Drift(schema, f.Var), recs, nil)
+			case 8:
+				full := c21Reencode(schema, recs, nil)
+				at := 0
+				if len(recs) > 0 {
+					part := c21Reencode(schema, recs[:len(recs)-1], nil)
+					at = len(part) - 8
+					if !bytes.Equal(part[:at], full[:at]) {
+						p.broken = "re-encoding is not prefix-stable"
+					}
+				}
+				body = full[:at+1+f.Var%3]
+			case 9:
+				tail := []byte("trailing")
+				if f.Var%2 == 1 {
+					tail = []byte("<html><body>502 Bad Gateway</body></html>")
+				}
+				body = append(append([]byte(nil), decoded...), tail...)
 			}
 		}
 		// transparent re-encodings (model: no change)
@@ -543,6 +565,19 @@ func c21Run(in c21In) CaseOut {
 	params := PIntBatch(0)
 	defer params.Release()
 
+	// no client call may allocate anywhere near what a hostile length field declares
+	// (responses are capped at 64 KiB here): bound the bytes allocated per call.
+	var ms runtime.MemStats
+	runtime.ReadMemStats(&ms)
+	allocMark := ms.TotalAlloc
+	allocOK := func() {
+		runtime.ReadMemStats(&ms)
+		if ms.TotalAlloc-allocMark > 64<<20 {
+			px.broken = fmt.Sprintf("a client call allocated %d MiB", (ms.TotalAlloc-allocMark)>>20)
+			px.cur.Res = c21Res{Kind: "other"} // never what the model predicts for a POSTing call
+		}
+		allocMark = ms.TotalAlloc
+	}
 	begin()
 	var st *vgirpc.HttpClientStream
 	if in.Exchange {
@@ -551,6 +586,7 @@ func c21Run(in c21In) CaseOut {
 		st, err = client.OpenProducer(ctx, "prod", params, vgirpc.ClientStreamSchema{Output: outSchemaV})
 	}
 	px.cur.Res = c21Result(nil, false, err, "nil")
+	allocOK()
 	if err == nil {
 		for _, op := range in.Ops {
 			begin()
@@ -574,6 +610,7 @@ func c21Run(in c21In) CaseOut {
 				st.Close()
 				px.cur.Res = c21Result(nil, false, nil, "nil")
 			}
+			allocOK()
 		}
 		st.Close()
 	}
@@ -587,6 +624,9 @@ func c21Run(in c21In) CaseOut {
 	}
 	if px.broken != "" {
 		tags["harness-broken"] = true
+		if strings.HasPrefix(px.broken, "a client call allocated") {
+			tags["alloc-bound-exceeded"] = true
+		}
 	}
 	if in.Init != "ok" {
 		tags["init-"+in.Init] = true
@@ -609,7 +649,7 @@ func c21Run(in c21In) CaseOut {
 			case f.Status != 0:
 				tags["fault-status"] = true
 			case f.Body != 0:
-				tags["fault-body-"+[]string{"", "garbage", "empty", "trunc", "trailing", "dropcur", "strip", "drift"}[f.Body]] = true
+				tags["fault-body-"+[]string{"", "garbage", "empty", "trunc", "trailing", "dropcur", "strip", "drift", "trunchead", "trailbig"}[f.Body]] = true
 			case f.ErrHdr:
 				tags["fault-errhdr"] = true
 			}
@@ -648,7 +688,7 @@ func c21LogList(l []int) string {
 func c21CoqFault(f c21Fault) string {
 	return App("C21.Build_fault", []string{"C21.NetOk", "C21.NetBefore", "C21.NetAfter"}[f.Net], Z(int64(f.Status)), Bool(f.Over),
 		[]string{"C21.EncKeep", "C21.EncUnknown", "C21.EncBad"}[f.Enc],
-		[]string{"C21.BKeep", "C21.BGarbage", "C21.BEmpty", "C21.BTrunc", "C21.BTrailing", "C21.BDropCur", "C21.BStrip", "C21.BDrift"}[f.Body],
+		[]string{"C21.BKeep", "C21.BGarbage", "C21.BEmpty", "C21.BTrunc", "C21.BTrailing", "C21.BDropCur", "C21.BStrip", "C21.BDrift", "C21.BTruncHead", "C21.BTrailBig"}[f.Body],
 		Bool(f.ErrHdr))
 }
 func c21CoqAct(t c21Turn) string {
@@ -773,7 +813,7 @@ func c21GenFault(r *rand.Rand) c21Fault {
 	case 4:
 		f.Enc = 1 + r.Intn(2)
 	case 5, 6, 7, 8, 9:
-		f.Body = 1 + r.Intn(7)
+		f.Body = 1 + r.Intn(9)
 	case 10:
 		f.ErrHdr = true
 	case 11: // combinations: the order of the client's checks matters
@@ -784,12 +824,12 @@ func c21GenFault(r *rand.Rand) c21Fault {
 		case 1:
 			f.Over = true
 		case 2:
-			f.Body = 1 + r.Intn(7)
+			f.Body = 1 + r.Intn(9)
 		default:
 			f.ErrHdr = true
 		}
 	case 12:
-		f.Body = 1 + r.Intn(7)
+		f.Body = 1 + r.Intn(9)
 		f.ErrHdr = r.Intn(2) == 0
 		if r.Intn(3) == 0 {
 			f.Net = 2
@@ -909,8 +949,8 @@ func c21Gen(r *rand.Rand, n int, tier string) []c21In {
 	for _, s := range []int{199, 200, 299, 300, 404, 500} {
 		singles = append(singles, c21Fault{Status: s})
 	}
-	for b := 1; b <= 7; b++ {
-		singles = append(singles, c21Fault{Body: b}, c21Fault{Body: b, Var: 1})
+	for b := 1; b <= 9; b++ {
+		singles = append(singles, c21Fault{Body: b}, c21Fault{Body: b, Var: 1}, c21Fault{Body: b, Var: 2})
 	}
 	for _, at := range []int{1, 2, 0} {
 		for _, f := range singles {
